@@ -7,8 +7,8 @@ from core import Case, nlist
 from pyerr import canon_call
 
 PROP = 'C01'
-COQ_TARGETS = ['theories/PrimFacts.vo', 'theories/PrimFloat.vo', 'theories/PrimObjFacts.vo']
-COQ_IMPORTS = 'From Coq Require Import String.\nFrom Bac Require Import Base Tag Prim PrimTables PrimObj.'
+COQ_TARGETS = ['theories/PrimFacts.vo', 'theories/PrimFloat.vo', 'theories/PrimObjFacts.vo', 'theories/PrimDispatchFacts.vo']
+COQ_IMPORTS = 'From Coq Require Import String.\nFrom Bac Require Import Base Tag Prim PrimTables PrimObj PrimDispatch.'
 TABLE_OBLIGATIONS = ['enums_bijective', 'enums_in_range', 'bitstrings_wf', 'unsigned_limits_std']
 RULE = ('cases (in-kernel correspondence; quick ~10 k, thorough ~46 k): for each of the 13 primitive classes and every Enumerated/BitString/Unsigned '
         'subclass found by the translator: integers +-{0,1,2} around 2^(8k), k=0..5, around +-2^31 and 2^32 plus random ones (100 / 300); bit strings of '
@@ -35,8 +35,12 @@ RULE = ('cases (in-kernel correspondence; quick ~10 k, thorough ~46 k): for each
         'histories; each value in application mode and 1-5 context numbers; the special-code-point corpus through the constructor and through decode '
         'in charsets 0/3/4/5; every BitString subclass + a user subclass x every length 0..bitLen+9 x {zeros, ones, random}; sibling-class scenarios '
         '(stock / vendor ObjectIdentifier in both orders, PropertyIdentifier / vendor subclass, neighbouring enumeration classes sharing numbers); '
-        'a second pass over ~2500 / 20 000 of the earlier values at the end of the run.')
-TRUSTED = ['model coq/theories/Prim.v written by hand after primitivedata.py Atomic classes and Tag.app_to_context/context_to_app; tie = correspondence',
+        'a second pass over ~2500 / 20 000 of the earlier values at the end of the run.  '
+        'Round 7 (Tag.app_to_object, model PrimDispatch): correspondence on ~400 / 2000 produced application octets of every class and subclass '
+        '(plus a random tail) through Tag(pdu).app_to_object(), every tag number 0..20 and 254 x content lengths 0..9 x random data, every tag class '
+        '0..3, extended tag numbers on the wire; direct: for the same tag family the object built is exactly the base class the tag number names '
+        '(independent list), holds what that class decodes from the tag itself, 13..15 give None, everything else is refused.')
+TRUSTED = ['model coq/theories/Prim.v written by hand after primitivedata.py Atomic classes and Tag.app_to_context/context_to_app, PrimDispatch.v after Tag.app_to_object / Tag._app_tag_class; tie = correspondence',
            'gen/Enums.v: enumeration / bit-string / limit tables read from the imported classes by translator/enums.py',
            'round32/widen32 model C float<->double conversion as done by struct.pack/unpack(">f") on this platform (NaN quietening included); tied by correspondence on bit patterns',
            'str <-> UTF-8/UTF-16/UTF-32/latin-1 codecs are CPython; the model only decides whether the strict decoders accept the octets']
@@ -429,6 +433,98 @@ def case_ctor(kind, cls, args):
     else:
         coq = 'canon_res canon_prim (objid_ctor objid_type_table objid_max_instance %s %s)' % (coq_eval(args[0]), zlit(args[1]))
     return Case('ctor-' + kind, coq, exp, key=('ctor', kind, cls, repr(args)), desc={'op': 'ctor', 'kind': kind, 'class': cls, 'args': repr(args)})
+
+
+# ------------------------------------------------------------------ Tag.app_to_object (model PrimDispatch.v)
+BASE_NAMES = ['Null', 'Boolean', 'Unsigned', 'Integer', 'Real', 'Double', 'OctetString', 'CharacterString', 'BitString', 'Enumerated',
+              'Date', 'Time', 'ObjectIdentifier']        # clause 20.2.1.4: application tag numbers 0..12
+
+
+def canon_generic(o):
+    """mirrors PrimDispatch.canon_obj: no object -> [0]; an object of the base class numbered k -> 1 :: canon_prim;
+    an object of any other class -> [2, ...] (the model never answers that)"""
+    if o is None:
+        return [0]
+    p = P()
+    for k, name in zip(KINDS, BASE_NAMES):
+        if type(o) is getattr(p, name):
+            return [1] + canon_value(k, o)
+    return [2] + canon_str(type(o).__name__)
+
+
+def impl_a2o(tag):
+    return canon_call(lambda: mk_tag(*tag).app_to_object(), canon_generic)
+
+
+def impl_w2o(octets):
+    from bacpypes.pdu import PDUData
+
+    def f():
+        pdu = PDUData(bytes(octets))
+        o = P().Tag(pdu).app_to_object()
+        return o, bytes(pdu.pduData)
+    return canon_call(f, lambda r: canon_generic(r[0]) + [len(r[1])] + list(r[1]))
+
+
+def case_a2o(tag, kind='a2o'):
+    return Case(kind, 'canon_res canon_obj (app_to_object objid_type_table %s)' % coq_tag(tag), impl_a2o(tag),
+                key=('a2o', repr(tag)), desc={'op': 'a2o', 'tag': [tag[0], tag[1], tag[2], bytes(tag[3]).hex()]})
+
+
+def case_w2o(octets, kind='w2o'):
+    return Case(kind, 'canon_res canon_obj_rest (wire_to_object objid_type_table %s)' % nlist(octets), impl_w2o(octets),
+                key=('w2o', bytes(octets)), nontrivial=len(octets) >= 1, desc={'op': 'w2o', 'octets': bytes(octets).hex()})
+
+
+def dispatch_tags(rng, quick):
+    """the tag family of Tag.app_to_object: every class, every number around the 13-entry / 16-slot class list, every
+    content length the fixed-length classes care about"""
+    tags = []
+    for num in list(range(0, 21)) + [254]:
+        for ln in range(0, 10):
+            for _ in range(1 if quick else 4):
+                tags.append((0, num, ln, rand_bytes(rng, ln)))
+        tags.append((0, num, rng.randrange(0, 300), b''))            # LVT that is not the length (booleans keep their value there)
+        for cls in (1, 2, 3):
+            ln = rng.choice([0, 1, 4])
+            tags.append((cls, num, ln, rand_bytes(rng, ln)))
+    for lvt in (0, 1, 2, 7):
+        tags.append((0, 1, lvt, b''))
+    # content that each class accepts: shortest / longest forms, every charset, unused-bit counts
+    for data in [b'\x00', b'\x00\x00', b'\xff\xff\xff\xff', b'\x01\x00\x00\x00\x00']:
+        for num in (2, 3, 9):
+            tags.append((0, num, len(data), data))
+    for data in [b'\x00abc', b'\x03\x00\x00\x00\x41', b'\x03\x00\x11\x00\x00', b'\x04\x00\x41', b'\x04\xd8\x00', b'\x05\xe9', b'\x09xy', b'\x00\xff\xfe']:
+        tags.append((0, 7, len(data), data))
+    for data in [b'\x00', b'\x00\xff', b'\x07\x80', b'\x08\x80', b'\x09\xff\xff', b'\x00\x12\x34\x56\x78\x9a\xbc\xde\xf0']:
+        tags.append((0, 8, len(data), data))
+    for w in [0, 0x003FFFFF, 0x00400000, 0x02000005, 0x20000002, 0xFFC00000, 0xFFFFFFFF] + [rng.getrandbits(32) for _ in range(8 if quick else 60)]:
+        tags.append((0, 12, 4, w.to_bytes(4, 'big')))
+    return tags
+
+
+def dispatch_cases(rng, tier, produced):
+    quick = tier != 'thorough'
+    out = []
+    apps = [o for (_, o, ctx) in produced if not ctx]
+    ctxs = [o for (_, o, ctx) in produced if ctx]
+    for octets in rng.sample(apps, min(len(apps), 400 if quick else 2000)):
+        tail = rand_bytes(rng, rng.choice([0, 0, 1, 3]))
+        out.append(case_w2o(octets + tail))
+    for octets in rng.sample(ctxs, min(len(ctxs), 40 if quick else 200)):      # context tagged: refused, whatever the content
+        out.append(case_w2o(octets))
+    for tag in dispatch_tags(rng, quick):
+        out.append(case_a2o(tag))
+    # extended tag numbers / lengths on the wire
+    for num in (13, 14, 15, 16, 17, 100, 254):
+        for ln in (0, 1, 4):
+            head = bytes([(num << 4) | ln]) if num < 15 else bytes([0xF0 | ln, num])
+            out.append(case_w2o(head + rand_bytes(rng, ln + rng.choice([0, 2]))))
+    for first in (0x25, 0x35, 0x65, 0x75, 0x85, 0x95):                          # extended length 5..: unsigned / integer / strings / enumerated
+        for ln in (5, 6):
+            out.append(case_w2o(bytes([first, ln]) + rand_bytes(rng, ln)))
+    return out
+
 
 
 # ------------------------------------------------------------------ object life cycles (model PrimObj.v)
@@ -1013,6 +1109,8 @@ def cases(rng, tier):
     out += history_cases(rng, tier)
     out += wave4_cases(rng, tier)
     out += second_pass(out, rng, 400 if quick else 2000)
+    import random as _random
+    out += dispatch_cases(_random.Random(rng.getrandbits(48)), tier, produced)      # own stream: the cases above keep their draws
     for c in out:
         if isinstance(c.desc, dict):
             c.desc.pop('_again', None)          # closures do not belong in evidence / replays
@@ -1466,11 +1564,71 @@ def direct(rng, tier, focus=()):
     # object life cycles: one object through construct / encode / decode-into / setters / copy, predicate after every step
     hf, hn, hnt = direct_histories(rng, tier)
     failures.extend(hf)
+    # Tag.app_to_object on the whole tag family (own stream: the draws above stay as they were)
+    import random as _random
+    df, dn = direct_dispatch(_random.Random(rng.getrandbits(48)), tier)
+    failures.extend(df)
+    n += dn
+    samples.append({'direct': 'Tag.app_to_object tag family', 'tags': dn})
     # the replay written per failure kind is the first one: put the self-contained ones first (a scenario / history carries the
     # calls that led to it; a single value that fails only because of what the process did before does not reproduce alone)
     failures.sort(key=lambda f: 0 if ('scenario' in f or 'history' in f) else 1)
     samples.append({'direct': 'object life cycles', 'histories_with_state_change': hnt, 'predicate_evaluations': hn})
     return failures, {'evaluations': n + hn, 'distinct_nontrivial': len(nontriv) + hnt, 'life_cycle_histories': hnt, 'exhaustive': False, 'samples': samples}
+
+
+def check_dispatch(tag):
+    """Implementation-only predicate for Tag.app_to_object on ONE tag (class, number, lvt, data): whatever it answers is
+    an object of exactly the base class clause 20.2.1.4 assigns to the tag number (independent list BASE_NAMES), holding
+    what that class's own decoder reads from this very tag; where that decoder refuses, app_to_object refuses; a tag that is
+    not an application tag numbered 0..12 never yields an object.  Returns a failure dict or None."""
+    p = P()
+    info = {'class': 'bacpypes.primitivedata.Tag', 'prim': 'tag', 'tag': [tag[0], tag[1], tag[2], bytes(tag[3]).hex()]}
+    try:
+        gen, gexc = mk_tag(*tag).app_to_object(), None
+    except Exception as e:
+        gen, gexc = None, e
+    named = tag[0] == 0 and 0 <= tag[1] <= 12
+    if not named:
+        if gen is not None:
+            return dict(info, kind='app_to_object-object-for-foreign-tag', built=type(gen).__name__)
+        return None
+    kind, base = KINDS[tag[1]], getattr(p, BASE_NAMES[tag[1]])
+    try:
+        ref, rexc = base(mk_tag(*tag)), None
+    except Exception as e:
+        ref, rexc = None, e
+    if gexc is not None or rexc is not None:
+        if (gexc is None) != (rexc is None):
+            return dict(info, kind='app_to_object-refusal-differs-from-class-decoder', generic=repr(gexc)[:80] if gexc else 'accepted', direct=repr(rexc)[:80] if rexc else 'accepted')
+        return None
+    if gen is None or type(gen) is not base:
+        return dict(info, kind='app_to_object-wrong-class', built=type(gen).__name__, expected=base.__name__)
+    if canon_value(kind, gen) != canon_value(kind, ref):
+        return dict(info, kind='app_to_object-differs', decoded=repr(gen.value)[:120], direct=repr(ref.value)[:120])
+    return None
+
+
+def direct_dispatch(rng, tier):
+    """check_dispatch over the tag family + the application tags of one boundary value per class (independent encoder)."""
+    quick = tier != 'thorough'
+    tags = dispatch_tags(rng, quick)
+    for kind, v in [('null', ()), ('bool', True), ('bool', False), ('unsigned', 0), ('unsigned', 2 ** 32 - 1), ('integer', -2 ** 31),
+                    ('integer', 127), ('real', 1.5), ('double', 0.1), ('octets', b''), ('octets', bytes(range(200))), ('bits', []),
+                    ('bits', [1] * 8), ('bits', [1, 0, 1] * 5 + [1]), ('date', (124, 2, 29, 4)), ('time', (23, 59, 59, 99))]:
+        if kind == 'bool':
+            tags.append((0, 1, 1 if v else 0, b''))
+            continue
+        content = spec_content(kind, v)
+        tags.append((0, KNUM[kind], len(content), content))
+    fails, n = [], 0
+    for tag in tags:
+        n += 1
+        f = check_dispatch(tag)
+        if f:
+            fails.append(f)
+    return fails, n
+
 
 
 # ------------------------------------------------------------------ direct predicate on object life cycles
@@ -1910,6 +2068,11 @@ def replay(payload):
             res, _ = check_value(c, st['prim'], arg, CTX_QUICK, tbl_for(c, st['prim']))
             print('  step', st['class'], repr(arg)[:80], '->', 'ok' if res is None else res['kind'])
         print('implementation:', 'property holds for this scenario' if res is None else res)
+        return
+    if f.get('prim') == 'tag':
+        t = f['tag']
+        res = check_dispatch((t[0], t[1], t[2], bytes.fromhex(t[3])))
+        print('implementation:', 'property holds for this tag' if res is None else res)
         return
     cls = find(f['class'])
     if 'history' in f:
